@@ -252,6 +252,15 @@ def check_backend(art, work, prog, placements, b, table):
     if r1.classify() != r2.classify():
         if r1.classify() == "panic" or r2.classify() == "panic":
             return "skip", None
+        if b == "demo_gen" and not r1.ok:
+            # demo_gen's nested js run evaluates the conditions as backend `js`: a disable that holds for js only may leave a
+            # dangling use there. That outcome must then be the one of the program resolved for js.
+            pj = instantiate(prog, placements, "resolved", "js", table)
+            e3 = os.path.join(work, "resjs.rs")
+            open(e3, "w").write(ir.render_program(pj))
+            r3 = tool.run_backend(art, b, e3, os.path.join(work, "o3"), config=CONFIGS[b][0])
+            if r3.classify() == r1.classify():
+                return "both-rejected", None
         return "fail", "%s: outcome %s with the conditional attributes but %s with their resolved form (%s)\n%s\n--- lib.rs ---\n%s" % (
             b, r1.classify(), r2.classify(), truth, (r1.stderr or r2.stderr)[-400:], s1)
     if not r1.ok:
